@@ -213,6 +213,9 @@ def run(ctx):
     from . import c03 as _c03
     ctx.rule('C10.MEMO', lambda: _c03.rule_memo(ctx, 'C10.MEMO'), 12)
     ctx.rule('C10.BYHEIGHT', lambda: rule_byheight(ctx), 2)
+    from . import c11 as _c11h, c09 as _c09h
+    ctx.rule('C10.HEADERSRC', lambda: _c11h.rule_header_source(ctx, 'C10.HEADERSRC'), 1)
+    ctx.rule('C10.HANDOVER', lambda: _c09h.rule_refresh_handover(ctx, 'C10.HANDOVER'), 3)
     from . import c12 as _c12, c08 as _c08
     ctx.rule('C10.OWNCOPY', lambda: _c12.rule_own_copy(ctx, 'C10.OWNCOPY'), 1)
     ctx.rule('C10.LIVEFLAG', lambda: _c08.rule_liveflag(ctx), 2)
